@@ -34,6 +34,9 @@ func svcPortSets() [][]wm.SvcPort {
 			res = append(res, []wm.SvcPort{{Name: "p1", Port: 80, Target: t1}, {Name: "p2", Port: 8080, Target: t2}})
 		}
 	}
+	// service ports of another protocol: alone, and sharing the number with a TCP port listed after it
+	res = append(res, []wm.SvcPort{{Name: "p1", Port: 53, Proto: "UDP"}}, []wm.SvcPort{{Name: "p1", Port: 80, Proto: "UDP", Target: wm.TNum(9090)}, {Name: "p2", Port: 80, Target: wm.TNum(8080)}},
+		[]wm.SvcPort{{Name: "p1", Port: 80, Target: wm.TNum(8080)}, {Name: "p2", Port: 8080, Proto: "SCTP", Target: wm.TNum(9090)}})
 	res = append(res, []wm.SvcPort{{Port: 53}}, []wm.SvcPort{{Name: "p1", Port: 80, Target: wm.TNum(8080)}, {Name: "p2", Port: 8080, Target: wm.TNum(80)}},
 		[]wm.SvcPort{{Name: "p1", Port: 80, Target: wm.TNum(8080)}, {Name: "p2", Port: 8080, Target: wm.TNum(9090)}})
 	return res
@@ -42,7 +45,7 @@ func svcPortSets() [][]wm.SvcPort {
 var backends = []wm.Backend{{Svc: "s", PortNum: 80}, {Svc: "s", PortNum: 8080}, {Svc: "s", PortNum: 9999}, {Svc: "s", PortName: "p1"}, {Svc: "s", PortName: "p2"}, {Svc: "s", PortName: "nosuch"}, {Svc: "missing", PortNum: 80}, {Svc: "s", PortNum: 53}, {Svc: "s2", PortNum: 80},
 	{Svc: "s", PortName: "http"}} // a port NAME that is also the named targetPort of a service port with another name
 var rtargets = []wm.Target{{}, wm.TName("p1"), wm.TName("p2"), wm.TName("zz"), wm.TNum(80), wm.TNum(8080), wm.TNum(9090)}
-var sels = []map[string]string{{"app": "a"}, {"app": "b"}, {"app": "a", "tier": "x"}, nil, {"app": "zz"}}
+var sels = []map[string]string{{"app": "a"}, {"app": "b"}, {"app": "a", "tier": "x"}, nil, {"app": "zz"}, {}} // the last one: selector: {} written out
 
 var all = &wm.Sel{}
 
@@ -253,7 +256,7 @@ func Run(r *fw.Run) {
 	fw.Explore(r, "ingress", fw.Full, func(c *fw.Ctx) *wm.World {
 		w := GenIngress(c)
 		if r.Quick() {
-			c.Stride(2)
+			c.Stride(3)
 		}
 		return w
 	}, Eval)
@@ -261,7 +264,7 @@ func Run(r *fw.Run) {
 	fw.Explore(r, "route", fw.Full, func(c *fw.Ctx) *wm.World {
 		w := GenRoute(c)
 		if r.Quick() {
-			c.Stride(2) // quick tier: every other leaf of the route product
+			c.Stride(3) // quick tier: every other leaf of the route product
 		}
 		return w
 	}, Eval)
